@@ -1,5 +1,6 @@
 """C14 - the fast selection-choice encoder is sound and covers the design space (DESIGN.md 6/C14)"""
 from hypothesis import strategies as st
+from ..strat import ints
 from .. import specs, refsel, proc
 from ..core import Result, viol, exc_sig
 from ..observe import observe, decode_one
@@ -16,14 +17,14 @@ BUDGET = {'quick': 150, 'thorough': 3000}
 
 @st.composite
 def _case(draw, tier):
-    kind = draw(st.integers(0, 9))
+    kind = draw(ints(0, 9))
     if kind == 0:
         # zero / forced choices only
         spec = draw(specs.sel_spec(min_nodes=3, max_nodes=6, max_opts=1))
     else:
         spec = draw(specs.full_spec(max_nodes=9 if tier == 'quick' else 11, p_conn=0.25, p_dv=0.2, p_con=0.25,
                                     small_conn=True))
-    return {'spec': spec, 'enc': 'FAST', 'vseed': draw(st.integers(0, 9999))}
+    return {'spec': spec, 'enc': 'FAST', 'vseed': draw(ints(0, 9999))}
 
 
 def strategy(tier):
